@@ -44,7 +44,8 @@ type SeenResponse struct {
 // encoder and records the response frames.
 type ScriptClient struct {
 	Enc  string
-	End  *FrameEnd
+	End  *FrameEnd // set when the peer sits on a frame link
+	io   Messages
 	mu   sync.Mutex
 	resp []SeenResponse
 	eof  bool
@@ -54,14 +55,25 @@ type ScriptClient struct {
 
 // NewScriptClient starts the response recorder on the client end of the link.
 func NewScriptClient(link *FrameLink, enc string, tick func() int64) *ScriptClient {
-	c := &ScriptClient{Enc: enc, End: link.C, tick: tick}
+	c := &ScriptClient{Enc: enc, End: link.C, io: link.C, tick: tick}
 	go c.readLoop()
 	return c
 }
 
+// NewScriptClientOn starts the response recorder on any message transport (for instance a
+// RawConn to a real unix-socket server).
+func NewScriptClientOn(m Messages, enc string, tick func() int64) *ScriptClient {
+	c := &ScriptClient{Enc: enc, io: m, tick: tick}
+	go c.readLoop()
+	return c
+}
+
+// Close closes the underlying transport.
+func (c *ScriptClient) Close() error { return c.io.Close() }
+
 func (c *ScriptClient) readLoop() {
 	for {
-		data, err := c.End.ReadMessage(nil)
+		data, err := c.io.ReadMessage(nil)
 		if err != nil {
 			c.mu.Lock()
 			c.eof = true
@@ -86,11 +98,29 @@ func (c *ScriptClient) readLoop() {
 
 // Send writes one request frame.
 func (c *ScriptClient) Send(h ReqHeader) error {
-	return c.End.WriteMessage(RefEncodeRequest(c.Enc, h))
+	return c.io.WriteMessage(RefEncodeRequest(c.Enc, h))
+}
+
+// SendBatch writes several requests as one arrival batch (one write call) where the transport
+// supports it, otherwise one after the other.
+func (c *ScriptClient) SendBatch(hs []ReqHeader) error {
+	if rc, ok := c.io.(*RawConn); ok {
+		var frames [][]byte
+		for _, h := range hs {
+			frames = append(frames, RefEncodeRequest(c.Enc, h))
+		}
+		return rc.WriteFrames(frames)
+	}
+	for _, h := range hs {
+		if err := c.Send(h); err != nil {
+			return err
+		}
+	}
+	return nil
 }
 
 // SendRaw writes arbitrary bytes as one frame.
-func (c *ScriptClient) SendRaw(b []byte) error { return c.End.WriteMessage(b) }
+func (c *ScriptClient) SendRaw(b []byte) error { return c.io.WriteMessage(b) }
 
 // Responses returns a copy of the responses seen so far.
 func (c *ScriptClient) Responses() []SeenResponse {
